@@ -204,12 +204,12 @@ PROPS = {
         "oracles": [{"name": "oracle-c05", "quick": 2500, "thorough": 200000}],
         "claim": "Lean 4 theorems over ALL byte strings: the chunk walker, the fcTL/fdAT sequence-number read, fcTL parsing, IHDR field access, colour-key and palette parsing never index out of range "
                  "(every slice/index of the Rust code is explicit in the model and the outcome `panic` is proved unreachable); a parsed chunk advances the offset by >= 12 (termination); an accepted header "
-                 "has non-zero dimensions and a depth legal for its colour type; if the size guard passes, the buffer sized from the header is <= 17*1032*len+14 bytes (non-interlaced). The whole of "
+                 "has non-zero dimensions and a depth legal for its colour type; if the size guard passes, the buffer sized from the header is <= 17*1032*len+14 bytes (non-interlaced) and <= 119*1032*len+98 bytes (interlaced; alloc_bounded for either layout). The whole of "
                  "PngData::from_slice is modelled (walker, policy, animation chunks, header validation, size guard, length check, unfiltering) and compared with the code on a mutated corpus, error "
                  "kinds included. The oracle runs every mutation through the real entry points in a worker process with a counting allocator and an address-space limit: panic, abort, signal, "
                  "excess heap or a 20 s stall is a failing input.",
         "note": "Partial: the theorems cover the front end up to the accepted header and the inflate-buffer size; reductions/evaluator on accepted-but-odd images (stray indices, empty palettes), allocator "
-                "behaviour, stack depth are covered only by the worker runs. The interlaced allocation bound is checked by the oracle, proved only for the non-interlaced layout. 64-bit usize assumed.",
+                "behaviour, stack depth are covered only by the worker runs. The allocation bound is proved for both layouts (alloc_bounded) and checked by the oracle's counting allocator. 64-bit usize assumed.",
         "technique": "Lean 4 proof (explicit-index model, panic outcome unreachable) + correspondence on mutated files + worker-process oracle",
         "partial_note": "post-header code paths and runtime (allocator, stack) are outside the theorems",
         "rule": "corpus of 32 generated files (15 type/depth pairs x interlaced/not with gAMA/bKGD/tEXt/iCCP/caBX, 2 APNGs) x mutations: single-bit flips, byte sets, truncations (strided in quick), "
